@@ -131,4 +131,28 @@ theorem scaling_pos (a b : Str) (r : Rat) (h : scaling a b = .ok r) : 0 < r := b
     exact zpow_pos (by norm_num) _
   · cases h
 
+/-- conversions compose for ANY strings the code reports scalable -/
+theorem scaling_compose_general (a b c : Str) (hab : scalable a b = true) (hbc : scalable b c = true) :
+    ∃ x y z : Rat, scaling a b = .ok x ∧ scaling b c = .ok y ∧ scaling a c = .ok z ∧ x * y = z := by
+  have hac := scalable_trans a b c hab hbc
+  obtain ⟨_, _, _, hw⟩ := (scalable_iff a b).mp hab
+  have e1 : scaling a b = .ok (tenPow (expOf (split a).1 - expOf (split b).1) ^ powOf (split a).2.2) := by
+    rw [scaling_total, hab]; rfl
+  have e2 : scaling b c = .ok (tenPow (expOf (split b).1 - expOf (split c).1) ^ powOf (split b).2.2) := by
+    rw [scaling_total, hbc]; rfl
+  have e3 : scaling a c = .ok (tenPow (expOf (split a).1 - expOf (split c).1) ^ powOf (split a).2.2) := by
+    rw [scaling_total, hac]; rfl
+  exact ⟨_, _, _, e1, e2, e3, by rw [← hw]; exact ratio_compose _ _ _ _⟩
+
+/-- and invert -/
+theorem scaling_invert_general (a b : Str) (hab : scalable a b = true) :
+    ∃ x y : Rat, scaling a b = .ok x ∧ scaling b a = .ok y ∧ x * y = 1 := by
+  have hba : scalable b a = true := by rw [scalable_symm]; exact hab
+  obtain ⟨_, _, _, hw⟩ := (scalable_iff a b).mp hab
+  have e1 : scaling a b = .ok (tenPow (expOf (split a).1 - expOf (split b).1) ^ powOf (split a).2.2) := by
+    rw [scaling_total, hab]; rfl
+  have e2 : scaling b a = .ok (tenPow (expOf (split b).1 - expOf (split a).1) ^ powOf (split b).2.2) := by
+    rw [scaling_total, hba]; rfl
+  exact ⟨_, _, e1, e2, by rw [← hw]; exact ratio_invert _ _ _⟩
+
 end Nix.Units.Lemmas
